@@ -310,6 +310,7 @@ Section Refine.
   Definition ev_plain (e : event) : Prop :=
     match e with
     | EvCall KOther _ _ _ => fx_site fx = true
+    | EvImplicit _ _ _ => fx_implicit fx = true
     | _ => True
     end.
   Definition kind_plain (k : lvkind) : Prop :=
@@ -319,9 +320,10 @@ Section Refine.
 
   Lemma step_commute k st e : ev_plain e -> ev_step fx (to_model k st) e = to_model k (spec_step st e).
   Proof.
-    destruct st as [[cur stk] s]. destruct e as [c idx line col|f|]; cbn [ev_plain]; intro H.
+    destruct st as [[cur stk] s]. destruct e as [c idx line col|idx line col|f|]; cbn [ev_plain]; intro H.
     - cbn [to_model ev_step spec_step]. unfold set_offset. cbn [f_native f_file f_callee st_idx].
       f_equal. f_equal. destruct c; cbn [record_site]; try reflexivity. rewrite H. reflexivity.
+    - cbn [to_model ev_step spec_step]. rewrite H. reflexivity.
     - cbn [to_model ev_step spec_step]. reflexivity.
     - cbn [to_model ev_step spec_step]. destruct stk as [|c stk']; reflexivity.
   Qed.
@@ -516,7 +518,7 @@ Lemma level_plain_allfix lv :
 Proof.
   intro H. repeat split; [| |exact H].
   - destruct (fst lv); exact I || reflexivity.
-  - apply Forall_forall. intros e _. destruct e as [k ? ? ?| |]; [destruct k|..]; exact I || reflexivity.
+  - apply Forall_forall. intros e _. destruct e as [k ? ? ?|? ? ?| |]; [destruct k|..]; exact I || reflexivity.
 Qed.
 
 (* the generator's (line, col) of a token and its file.Idx determine each other *)
